@@ -1,6 +1,6 @@
 """Level texts of the manifest (what each check assures, and what it trusts)."""
 
-HOOK_COMMITS = ['019f6de']
+HOOK_COMMITS = ['019f6de', 'c8a37a2']
 
 NOT_APPLICABLE = {}
 
